@@ -213,7 +213,13 @@ def main(argv=None):
 
 def summarize_trace(trace, limit=120):
     out = []
+    started = False
     for st in trace or []:
+        if not started:
+            # skip static initialisation: start at the first function call
+            if st.get('stepType') == 'function-call':
+                started = True
+            continue
         if st.get('hidden'):
             continue
         t = st.get('stepType')
